@@ -111,8 +111,20 @@ EigendecompositionResult eigendecomposition_impl_randomized(const MatrixType& wm
             Y.col(i) -= r * Y.col(j);
         }
         ScalarType norm = Y.col(i).norm();
-        if (norm < 1e-4)
+        if (norm < 1e-4 && i > 0)
         {
+            // rank-deficient input: complete the orthonormal basis with the random direction itself
+            Y.col(i) = O.col(i);
+            for (IndexType j = 0; j < i; j++)
+            {
+                ScalarType r = Y.col(i).dot(Y.col(j));
+                Y.col(i) -= r * Y.col(j);
+            }
+            norm = Y.col(i).norm();
+        }
+        else if (norm < 1e-4)
+        {
+            // numerically zero matrix: no direction to find (reported as eigendecomposition_error below)
             for (int k = i; k < Y.cols(); k++)
                 Y.col(k).setZero();
         }
